@@ -21,6 +21,7 @@ func main() {
 	testdata := flag.String("testdata", "internal/testdata", "directory with the base .proto files")
 	inputsPath := flag.String("inputs", "", "calls: file receiving one line per distinct trace (id, input, multiplicity)")
 	workers := flag.Int("workers", 8, "parallel parse workers")
+	noRef := flag.Bool("noref", false, "units: skip the cross-check of the driver's reference functions (binding self-test)")
 	flag.Parse()
 	in := bufio.NewScanner(os.Stdin)
 	in.Buffer(make([]byte, 1<<20), 1<<28)
@@ -29,7 +30,7 @@ func main() {
 	var err error
 	switch *mode {
 	case "units":
-		err = runUnits(in, out)
+		err = runUnits(in, out, *noRef)
 	case "calls":
 		err = runCalls(in, out, *testdata, *inputsPath, *workers)
 	case "spans":
